@@ -362,7 +362,13 @@ def norm(s):
 
 
 def run_case(spec, workdir, dm=False, colour=False):
-    """Run PSy-layer generation and stub generation for the case whose files are in workdir.
+    """One kernel in one invoke."""
+    return run_group([spec], workdir, dm=dm, colour=colour)[0]
+
+
+def run_group(specs, workdir, dm=False, colour=False):
+    """Run PSy-layer generation for ONE invoke calling all the kernels of `specs` (which may share
+    algorithm-layer arguments) and stub generation for each kernel; returns one result per kernel.
     dm: distributed memory on; colour: try to colour every loop (Dynamo0p3ColourTrans) first."""
     import gen as G     # noqa (props/C21 is on sys.path when called from check.py)
     from psyclone.parse.algorithm import parse
@@ -372,91 +378,104 @@ def run_case(spec, workdir, dm=False, colour=False):
     from psyclone.domain.lfric import KernCallArgList
     from psyclone.configuration import Config
     import fparser
-    kfile = workdir / ("%s_mod.f90" % spec["name"])
-    afile = workdir / ("alg_%s.f90" % spec["name"])
-    kfile.write_text(G.kernel_text(spec))
-    afile.write_text(G.alg_text(spec))
-    res = {"call": None, "stub": None, "call_err": None, "stub_err": None}
+    kfiles = []
+    for spec in specs:
+        kfile = workdir / ("%s_mod.f90" % spec["name"])
+        kfile.write_text(G.kernel_text(spec))
+        kfiles.append(kfile)
+    afile = workdir / ("alg_%s.f90" % specs[0]["name"])
+    afile.write_text(G.alg_text_group(specs))
+    results = [{"call": None, "stub": None, "call_err": None, "stub_err": None, "coloured": False,
+                "n_kernels_in_invoke": len(specs)} for _ in specs]
     Config.get().api = "lfric"
-    # ---- call side
+    # ---- call side: one PSy layer for the whole invoke
+    text = kerns = None
     try:
         fparser.one.parsefortran.FortranParser.cache.clear()
         _, info = parse(str(afile), api="lfric", kernel_paths=[str(workdir)])
         psy = PSyFactory("lfric", distributed_memory=dm).create(info)
-        res["coloured"] = False
         if colour:
             from psyclone.transformations import Dynamo0p3ColourTrans, TransformationError
             sched = psy.invokes.invoke_list[0].schedule
             for loop in list(sched.loops()):
                 try:
                     Dynamo0p3ColourTrans().apply(loop)
-                    res["coloured"] = True
+                    for r in results:
+                        r["coloured"] = True
                 except TransformationError:
                     pass
-        with Recording() as runs:
-            text = str(psy.gen)
-            kerns = psy.invokes.invoke_list[0].schedule.coded_kernels()
-            if len(kerns) != 1:
-                raise Unrecognised("expected one coded kernel, got %d" % len(kerns))
-            n_before = len(runs)
-            cal = KernCallArgList(kerns[0])
-            cal.generate(var_accesses=VariablesAccessInfo())
-            run = runs[n_before]
-        shapes, _ = call_shapes(text, spec["code"])
-        if [norm(s["text"]) for s in shapes] != [norm(x) for x in run["arglist"]]:
-            raise Unrecognised("KernCallArgList.arglist differs from the generated call: %s vs %s"
-                               % (run["arglist"], [s["text"] for s in shapes]))
-        modes = [m for e in run["events"] for m in e["modes"]]
-        if [norm(n) for e in run["events"] for n in e["names"]] != [norm(x) for x in run["arglist"]]:
-            raise Unrecognised("an argument was appended outside the logged ArgOrdering hooks")
-        if len(modes) != len(shapes):
-            raise Unrecognised("mode log length %d != %d actual arguments" % (len(modes), len(shapes)))
-        k = kerns[0]
-        res["call"] = {"text": text, "shapes": shapes, "events": run["events"], "modes": modes,
-                       "kern": {"cma_operation": k.cma_operation, "is_intergrid": k.is_intergrid,
-                                "iterates_over": k.iterates_over,
-                                "eval_targets": list(k.eval_targets.keys()) if k.eval_targets else [],
-                                "eval_shapes": list(k.eval_shapes), "qr_rules": list(k.qr_rules.keys()),
-                                "unique_fss": [f.orig_name for f in k.arguments.unique_fss]}}
+        text = str(psy.gen)
+        kerns = psy.invokes.invoke_list[0].schedule.coded_kernels()
+        if len(kerns) != len(specs) or [k.name.lower() for k in kerns] != [sp["code"].lower() for sp in specs]:
+            raise Unrecognised("coded kernels of the invoke are %s, expected %s"
+                               % ([k.name for k in kerns], [sp["code"] for sp in specs]))
     except Exception as e:      # classified by the caller
-        res["call_err"] = classify_exc(e)
-        res["call_exc"] = e
-    # ---- stub side
-    try:
-        with Recording() as runs:
-            stub = generate(str(kfile), api="lfric")
-            stext = str(stub)
-        sruns = [r for r in runs if r["side"] == "stub" and r["done"]]
-        if len(sruns) != 1:
-            raise Unrecognised("expected one KernStubArgList.generate run, got %d" % len(sruns))
-        dummies, subname, modname, _ = stub_shapes(stext)
-        if [d["name"] for d in dummies] != [norm(x) for x in sruns[0]["arglist"]]:
-            raise Unrecognised("KernStubArgList.arglist differs from the stub dummy list")
-        if [norm(n) for e in sruns[0]["events"] for n in e["names"]] != [d["name"] for d in dummies]:
-            raise Unrecognised("a stub argument was appended outside the logged ArgOrdering hooks")
-        res["stub"] = {"text": stext, "dummies": dummies, "events": sruns[0]["events"], "subname": subname,
-                       "modname": modname}
-    except Exception as e:
-        res["stub_err"] = classify_exc(e)
-        res["stub_exc"] = e
-    return res
+        for r in results:
+            r["call_err"] = classify_exc(e)
+            r["call_exc"] = e
+        kerns = None
+    for j, (spec, res) in enumerate(zip(specs, results)):
+        if kerns is None:
+            break
+        try:
+            with Recording() as runs:
+                cal = KernCallArgList(kerns[j])
+                cal.generate(var_accesses=VariablesAccessInfo())
+                run = runs[0]
+            shapes, _ = call_shapes(text, spec["code"])
+            if [norm(s["text"]) for s in shapes] != [norm(x) for x in run["arglist"]]:
+                raise Unrecognised("KernCallArgList.arglist differs from the generated call: %s vs %s"
+                                   % (run["arglist"], [s["text"] for s in shapes]))
+            modes = [m for e in run["events"] for m in e["modes"]]
+            if [norm(n) for e in run["events"] for n in e["names"]] != [norm(x) for x in run["arglist"]]:
+                raise Unrecognised("an argument was appended outside the logged ArgOrdering hooks")
+            if len(modes) != len(shapes):
+                raise Unrecognised("mode log length %d != %d actual arguments" % (len(modes), len(shapes)))
+            res["call"] = {"text": text, "shapes": shapes, "events": run["events"], "modes": modes}
+        except Exception as e:
+            res["call_err"] = classify_exc(e)
+            res["call_exc"] = e
+    # ---- stub side: each kernel's own stub
+    for spec, kfile, res in zip(specs, kfiles, results):
+        try:
+            with Recording() as runs:
+                stub = generate(str(kfile), api="lfric")
+                stext = str(stub)
+            sruns = [r for r in runs if r["side"] == "stub" and r["done"]]
+            if len(sruns) != 1:
+                raise Unrecognised("expected one KernStubArgList.generate run, got %d" % len(sruns))
+            dummies, subname, modname, _ = stub_shapes(stext)
+            if [d["name"] for d in dummies] != [norm(x) for x in sruns[0]["arglist"]]:
+                raise Unrecognised("KernStubArgList.arglist differs from the stub dummy list")
+            if [norm(n) for e in sruns[0]["events"] for n in e["names"]] != [d["name"] for d in dummies]:
+                raise Unrecognised("a stub argument was appended outside the logged ArgOrdering hooks")
+            res["stub"] = {"text": stext, "dummies": dummies, "events": sruns[0]["events"], "subname": subname,
+                           "modname": modname}
+        except Exception as e:
+            res["stub_err"] = classify_exc(e)
+            res["stub_exc"] = e
+    return results
 
 
 def work(job):
-    """Worker entry point (multiprocessing): run a list of cases in this process."""
+    """Worker entry point (multiprocessing): run a list of items in this process.  An item is a spec
+    (one kernel, one invoke) or {"group": [specs], "id", "dm", "colour"} (one invoke, several kernels);
+    returns one result per item (a list of results for a group)."""
     from pathlib import Path
-    specs, workdir = job
+    import shutil
+    items, workdir = job
     install_hooks()
     out = []
-    import shutil
-    for sp in specs:
-        d = Path(workdir) / ("case_%s" % sp.get("id", sp["name"]))     # kernel names repeat (bc kernels)
+    for it in items:
+        group = it["group"] if "group" in it else [it]
+        d = Path(workdir) / ("case_%s" % it.get("id", group[0]["name"]))     # kernel names repeat (bc kernels)
         d.mkdir(parents=True, exist_ok=True)
         try:
-            r = run_case(sp, d, dm=sp.get("dm", False), colour=sp.get("colour", False))
+            rs = run_group(group, d, dm=it.get("dm", False), colour=it.get("colour", False))
         finally:
             shutil.rmtree(d, ignore_errors=True)
-        r.pop("call_exc", None)
-        r.pop("stub_exc", None)
-        out.append(r)
+        for r in rs:
+            r.pop("call_exc", None)
+            r.pop("stub_exc", None)
+        out.append(rs if "group" in it else rs[0])
     return out
